@@ -103,6 +103,11 @@ func (e *FuncEnc) encodeInstr(in ssa.Instruction) {
 		e.encodeSlice(x)
 	case *ssa.Range:
 		e.val[x] = e.v(x.X) // iterator = the collection
+		if mt, ok := x.X.Type().Underlying().(*types.Map); ok {
+			// ghost: the set of keys this iteration has yielded so far
+			key, srt := e.visitedKey(x, mt)
+			e.setHeap(e.cur, key, srt, fmt.Sprintf("((as const %s) false)", srt))
+		}
 	case *ssa.Next:
 		e.encodeNext(x)
 	case *ssa.Defer:
@@ -756,6 +761,27 @@ func (e *FuncEnc) encodeNext(x *ssa.Next) {
 	e.paramLikeFacts(v, mt.Elem())
 	e.tuple[x] = []string{okS, k, v}
 	e.val[x] = okS
+	if stable {
+		// every present key is yielded exactly once: a yielded key was not
+		// visited before; when the iteration ends every present key was visited
+		key, srt := e.visitedKey(rng, mt)
+		vis := e.heapName(e.cur, key, srt)
+		ks := e.D.SortOf(mt.Key())
+		_, hk3, _, hs3, _, _ := e.mapKeys(mt)
+		hasArr := sx("select", e.heapName(e.cur, hk3, hs3), m)
+		e.assume(e.curReach, implies(okS, not(sx("select", vis, k))))
+		e.assume(e.curReach, implies(not(okS), fmt.Sprintf("(forall ((q %s)) (! (=> (and (not (= %s 0)) (select %s q)) (select %s q)) :pattern ((select %s q))))", ks, m, hasArr, vis, vis)))
+		e.setHeap(e.cur, key, srt, ite(okS, sx("store", vis, k, "true"), vis))
+		e.Cache["visited:"+key] = true
+	}
+}
+
+// visitedKey: ghost "heap" holding the set of keys yielded by a map range.
+func (e *FuncEnc) visitedKey(rng *ssa.Range, mt *types.Map) (string, string) {
+	key := fmt.Sprintf("GV_range_%s", mangle(rng.Name()))
+	srt := fmt.Sprintf("(Array %s Bool)", e.D.SortOf(mt.Key()))
+	e.heapSorts[key] = srt
+	return key, srt
 }
 
 func (e *FuncEnc) loopOf(b *ssa.BasicBlock) *loopInfo {
